@@ -22,6 +22,7 @@ EXPLANATION = (
     "SourcedMessage, and data dependence of offsets yielded from compressed wrappers. Each rule is a necessary "
     "condition of the delivery property; whole-history gap freedom is not decided."
 )
+SHARED = [('C05', ['R4'], 'compressed wrappers are decoded completely and by the right codec')]
 ASSUMPTIONS = [
     "Twisted: a failed/pending Deferred yielded in an inlineCallbacks generator suspends the generator",
     "KafkaClient.send_* return Deferreds; the broker's log order is ground truth (not modelled)",
